@@ -12,6 +12,21 @@ Require Import Nib.Gen.C06Facts.
 Theorem C06_paths_match_model : current_paths = model_paths.
 Proof. reflexivity. Qed.
 
+(** every ledger operation of every path has its error checked and handed on to the caller, through every helper
+    (an `if _, err := f(); err != nil { err = wrap(err) }; return err` loses the error in the shadowing variable) *)
+Theorem C06_errors_propagated : errors_propagated current_paths_e = true.
+Proof. reflexivity. Qed.
+
+(** so each path of the current tree runs exactly as the corresponding list of the model, failures included *)
+Theorem C06_current_paths_fail_closed :
+  Forall (fun p => forall s t d caller x to, run_path_e p s t d caller x to = run_path (map fst p) s t d caller x to)
+         (all_paths_e current_paths_e).
+Proof.
+  apply Forall_forall. intros p Hp s t d caller x to. apply run_path_e_checked.
+  pose proof C06_errors_propagated as H. unfold errors_propagated in H. rewrite forallb_forall in H. exact (H p Hp).
+Qed.
+Print Assumptions C06_current_paths_fail_closed.
+
 (** keeper.ERC20().Transfer: balanceOf before and after the call, success flag checked, increase = after - before,
     refused when <= 0, and that increase is what the helper returns *)
 Theorem C06_transfer_helper_matches_model : current_transfer_helper = model_transfer_helper.
